@@ -22,6 +22,7 @@ import DisjointImpls.Props.C11
 import DisjointImpls.Lemmas.EndToEnd
 import DisjointImpls.CanonAlphaDefs
 import DisjointImpls.Lemmas.CanonIsRenamingDefs
+import DisjointImpls.Lemmas.CanonRoundTripDefs
 import DisjointImpls.Lemmas.EndToEndNested
 import DisjointImpls.Lemmas.Acyclic
 import DisjointImpls.Lemmas.FlatAccept
@@ -228,7 +229,9 @@ def handle (cmd : String) (args : List Sx) : Sx :=
       .list [.sym "canonwf", boolSx (canonWF item), boolSx (canon (canon item) == canon item),
              boolSx (canon item == qselfFormOf_cr r.tyNames_cr (alphaRenameC_cr r item)),
              boolSx (noOld_cr r (canon item)), boolSx (alphaOK r item),
-             boolSx (renamingShapeOK_cr item), boolSx (canon item == qselfForm_cr (alphaRenameC_cr r item))]
+             boolSx (renamingShapeOK_cr item), boolSx (canon item == qselfForm_cr (alphaRenameC_cr r item)),
+             -- hypothesis and conclusion of C13_round_trip
+             boolSx (roundTripOK_rt item), boolSx (alphaRenameC_cr r.inv_rt (unqself_rt r (canon item)) == item)]
   | "alpha", [base, variant, pi] =>
       -- hypotheses and conclusion of C06_renamed_permuted_same_header for a block and a renamed / re-declared presentation of it:
       -- pi = Pi[lt[a b …], ty[a b …], co[a b …]] (old name, new name, …)
@@ -246,7 +249,10 @@ def handle (cmd : String) (args : List Sx) : Sx :=
       let perm := decide (ps'.Perm (implParams renamed))
       .list [.sym "alpha", boolSx (canonWF base), boolSx (alphaOK π base), boolSx (formOK π), boolSx textual, boolSx perm,
              boolSx (groupIdOf (mkBlk variant).item == groupIdOf (mkBlk base).item),
-             boolSx (alphaOKh π base && hdrVis base)]
+             boolSx (alphaOKh π base && hdrVis base),
+             -- hypotheses and conclusion of C13_same_canon_only_if_renaming for the pair (base, variant)
+             boolSx (roundTripOK_rt base && roundTripOK_rt variant && canon base == canon variant),
+             boolSx (alphaRenameC_cr (renamingBetween_rt base variant) base == variant)]
   | "hwfdbg", items =>
       let ids := (mkBuckets (items.map mkBlk)).map (·.1)
       .list (ids.map (fun g => .list [boolSx (okT_tr g), boolSx (presInj_tr g),
